@@ -258,7 +258,7 @@ impl ArbiterRunner {
 
 #[verifier::exec_allows_no_decreases_clause]
 #[verifier::loop_isolation(false)]
-//@extract file=actix-rt/src/arbiter.rs item="impl Future for ArbiterRunner / fn poll" ret=r props=C10 name=arbiter::runner_poll
+//@extract file=actix-rt/src/arbiter.rs item="impl Future for ArbiterRunner / fn poll" ret=r props=C10,C09 name=arbiter::runner_poll
 //@spec
     requires
         old(self).alive(),
